@@ -111,6 +111,7 @@ def run_case(case):
         out.classes.append('aim_rounds:%s' % ('default' if case['rounds'] is None else 'given'))
     if case['mech'] == 'adagrid' and case['targets']: out.classes.append('adagrid_targets')
     if case['n'] < 30: out.classes.append('tiny_dataset')
+    if case.get('prior_objects'): out.classes.append('prior_mechanism_objects')
     return out
 
 
